@@ -9,7 +9,9 @@ Executable contract on the REAL armi functions (nothing copied from them):
   jagged    JaggedArray bookkeeping: offsets[k] = sum of sizes before k, len(flat) = total size, shapes, none list,
             and JaggedArray.fromH5(...).unpack() gives the entries back.
   db.params the same collections assigned to a parameter of dummy Composite classes, Database._writeParams into an
-            in-memory HDF5 group, Database._readParams into fresh objects.
+            in-memory HDF5 group, Database._readParams into fresh objects; one parameter of each kind on a parent/child
+            class pair (db.params.hierarchy); the same objects as children of the smallest test reactor through
+            Database.writeToDB -> file in a temporary directory -> Database.load (db.load).
 
 Oracle (property statement, independent of the encoder): the read-back collection has the same length and, entry by
 entry, the same value, shape (own recursive walk, not numpy), numeric kind (bool / int / float / str) and None
@@ -26,16 +28,21 @@ Anything else that is not an exception on the write side is a violation.  Violat
   <clause>.unsigned-sentinel  none-position failure in a collection of unsigned numpy integers
   <clause>.sentinel-collision a value equal to the None sentinel of its dtype came back None
   <clause>.shape              same leaves, different shape (scalar -> 1-element array, ragged entry flattened)
-  <clause>.read-error         the write was accepted but reading raises / gives another number of entries
-with <clause> in {pack, db.params}; nonsense.roundtrip / nonsense.unsigned-sentinel / nonsense.sentinel-collision /
-nonsense.values; jagged.offsets / jagged.length / jagged.shapes / jagged.nones / jagged.flat / jagged.roundtrip.
-Only the smallest failing input of each id is reported; the number of failing inputs per id is in `violation_counts`.
+  <clause>.entries-dropped    the write was accepted but the stored data hold another number of entries than objects
+                              (reading raises "unmatched sizes" or gives a shorter list)
+  <clause>.read-error         the write was accepted but reading raises anything else
+with <clause> in {pack, db.params} for collections of ONE kind and dtype, and <clause>.mixed.<class> (e.g.
+db.params.mixed.kind-promotion) for collections that mix kinds or dtypes (so that a mixed-kind failure can never hide a
+one-kind failure of the same class).  Further ids: nonsense.roundtrip / nonsense.values / nonsense.unsigned-sentinel /
+nonsense.sentinel-collision; jagged.offsets / jagged.length / jagged.shapes / jagged.nones / jagged.flat /
+jagged.roundtrip (also with .mixed.); db.params.hierarchy; db.load; attrs.spill-roundtrip.
+Only the smallest failing input of each id is reported (with the number of failing inputs); all counts are in
+`violation_counts`.  `--replay '<input>'` re-runs one reported input; `--dump <file>` writes every failing input.
 """
 import sys, os
 sys.path.insert(0, os.path.dirname(os.path.abspath(__file__)))
 import itertools
 import json
-import math
 import tempfile
 
 from common import Bounded
@@ -49,7 +56,7 @@ import numpy as np  # noqa: E402
 import h5py  # noqa: E402
 from armi import runLog  # noqa: E402
 from armi.bookkeeping.db import database, layout  # noqa: E402
-from armi.bookkeeping.db.database import Database, packSpecialData, unpackSpecialData  # noqa: E402
+from armi.bookkeeping.db.database import Database, unpackSpecialData  # noqa: E402
 from armi.bookkeeping.db.jaggedArray import JaggedArray  # noqa: E402
 from armi.bookkeeping.db.layout import replaceNonesWithNonsense, replaceNonsenseWithNones  # noqa: E402
 from armi.reactor import composites, parameters  # noqa: E402
@@ -59,17 +66,19 @@ from armi.utils.flags import Flag  # noqa: E402
 runLog.setVerbosity("header")  # the encoder logs every rejection; keep stdout for the JSON line
 
 B = Bounded(
-    "collections (one entry per object) built from a fixed alphabet of entry kinds: homogeneous (one kind, values rotated "
-    "through the positions) and mixed (every pair of kinds, alternating; thorough adds seeded random 3-kind mixes), each "
+    "collections (one entry per object) built from a fixed alphabet of 60+ entry kinds: one-kind (windows of consecutive pool "
+    "values, every value in every position) and mixed (every pair of 21 / 36 representative kinds, alternating; thorough adds "
+    "20000 seeded random 3-kind mixes), each "
     "combined with EVERY None-position pattern; each collection is evaluated by the pack, nonsense, jagged and db.params "
     "clauses that apply to it; distinct = distinct (clause, form, collection)",
     "entries in {None, python int incl. int8..uint64 extremes, numpy int8..uint64 min/max/sentinel, float incl. +-inf/nan/denormal, "
     "float32/64 scalars, bool, str ascii/unicode/empty, 1-d/2-d arrays (float/int/uint/bool/str; equal and differing shapes), "
-    "nested lists equal/ragged/inner-ragged, tuples, empty list/array, dict[str,float], Flags}; collection length <= 4 quick "
-    "(mixed pairs <= 3), <= 6 thorough; all 2^n None patterns; plus one 9000-entry ragged collection (attribute spill)",
+    "nested lists equal/ragged/inner-ragged, tuples, empty list/array, dict[str,float], Flags}; collection length <= 4 quick, "
+    "<= 6 thorough; all 2^n None patterns; plus one 9000-entry ragged collection (72 KB attributes), one parameter of each "
+    "kind on a parent/child class pair, and the same through writeToDB/load of the smallest test reactor",
 )
 N_HOMO = 6 if B.thorough() else 4
-N_MIX = 6 if B.thorough() else 3
+N_MIX = 6 if B.thorough() else 4
 ROT = 6 if B.thorough() else 3
 NAME = "c05val"
 
@@ -110,6 +119,8 @@ def build(spec):
         return tuple(_dec(spec[1]))
     if t == "d":
         return {k: float(_dec(v)) for k, v in spec[1].items()}
+    if t == "D":  # a dict that is NOT dict[str, float] (outside the property's quantifier; must be rejected, reaches that branch)
+        return dict(spec[1])
     if t == "F":
         f = Flags(0)
         for n in spec[1]:
@@ -130,8 +141,12 @@ for _dt in INT_DTYPES:
     _i = II(_dt)
     KINDS["np-" + _dt] = [["np", _dt, int(_i.min)], ["np", _dt, int(_i.max)], ["np", _dt, 1], ["np", _dt, 5]]
 # the values the encoder uses as None markers (NONE_MAP: min+2 for signed, max-2 for unsigned; decoder: min+2)
-KINDS["sentinel-signed"] = [["np", dt, int(II(dt).min) + 2] for dt in INT_DTYPES[:4]] + [["i", int(II("int64").min) + 2]]
-KINDS["sentinel-unsigned"] = [["np", dt, v] for dt in INT_DTYPES[4:] for v in (int(II(dt).max) - 2, 2)]
+for _dt in INT_DTYPES[:4]:
+    KINDS["sentinel-" + _dt] = [["np", _dt, int(II(_dt).min) + 2], ["np", _dt, 1]]
+for _dt in INT_DTYPES[4:]:
+    KINDS["sentinel-" + _dt] = [["np", _dt, int(II(_dt).max) - 2], ["np", _dt, 2], ["np", _dt, 1]]
+KINDS["sentinel-pyint"] = [["i", int(II("int64").min) + 2], ["i", 3]]
+KINDS["np-int8+int16+int32+uint8"] = [["np", "int8", 5], ["np", "int16", 300], ["np", "int32", 70000], ["np", "uint8", 200]]
 KINDS["float"] = [["f", 0.0], ["f", -1.5], ["f", 1e300], ["f", 5e-324], ["f", "inf"], ["f", "-inf"]]
 KINDS["float-nan"] = [["f", "nan"], ["f", 2.5]]
 KINDS["np-float64"] = [["np", "float64", 2.5], ["np", "float64", "inf"]]
@@ -144,7 +159,8 @@ KINDS["arr1f-equal"] = [["a", "float64", [1.0, 2.0, 3.0]], ["a", "float64", [4.0
 KINDS["arr1f-ragged"] = [["a", "float64", [1.0, 2.0, 3.0]], ["a", "float64", [7.0]], ["a", "float64", [8.0, 9.0]]]
 KINDS["arr1f-nan"] = [["a", "float64", [1.0, "nan"]], ["a", "float64", ["nan", "nan"]], ["a", "float64", [3.0, 4.0]]]
 KINDS["arr1i-equal"] = [["a", "int64", [1, 2, 3]], ["a", "int64", [-4, 5, int(II("int64").max)]]]
-KINDS["arr1i-ragged"] = [["a", "int64", [1, 2, 3]], ["a", "int64", [4, 5]], ["a", "int32", [6]]]
+KINDS["arr1i-ragged"] = [["a", "int64", [1, 2, 3]], ["a", "int64", [4, 5]], ["a", "int64", [6]]]
+KINDS["arr1-int64+int32"] = [["a", "int64", [1, 2, 3]], ["a", "int32", [4, 5]]]
 KINDS["arr1u8"] = [["a", "uint8", [255, 0]], ["a", "uint8", [1, 7]], ["a", "uint8", [3]]]
 KINDS["arr1f32"] = [["a", "float32", [0.1, 2.0]], ["a", "float32", [3.0, 4.5]]]
 KINDS["arr2f-equal"] = [["a", "float64", [[1.0, 2.0], [3.0, 4.0]]], ["a", "float64", [[5.0, 6.0], [7.0, 8.5]]]]
@@ -157,19 +173,21 @@ KINDS["listf-equal"] = [["l", [1.5, 2.5]], ["l", [0.0, "inf"]]]
 KINDS["list2-equal"] = [["l", [[1, 2], [3, 4]]], ["l", [[5, 6], [7, 8]]]]
 KINDS["list-ragged"] = [["l", [1]], ["l", [1, 2, 3]], ["l", [4, 5]]]
 KINDS["list-inner-ragged"] = [["l", [[1], [2, 3]]], ["l", [[4, 5], [6]]], ["l", [[7]]]]
-KINDS["list-int-float"] = [["l", [1, 2]], ["l", [1.5]]]
+KINDS["list-int+float"] = [["l", [1, 2]], ["l", [1.5]]]
 KINDS["tuple"] = [["t", [1, 2]], ["t", [3, 4]], ["t", [5]]]
 KINDS["empty"] = [["l", []], ["a", "float64", []], ["a", "int64", []], ["a", "float64", [], [0, 2]]]
 KINDS["arr-zero-width"] = [["a", "float64", [], [2, 0]], ["a", "float64", [[1.0, 2.0]]]]
 KINDS["dict"] = [["d", {"a": 1.0}], ["d", {"b": 2.0, "a": -1.5}], ["d", {}], ["d", {"c": "inf", "a": 0.0}]]
 KINDS["dict-nan"] = [["d", {"a": "nan", "b": 1.0}], ["d", {"b": 2.0}]]
+KINDS["dict+dict-not-float"] = [["D", {"a": None}], ["d", {"a": 1.0}]]
 KINDS["flags"] = [["F", ["FUEL"]], ["F", ["FUEL", "INNER"]], ["F", []], ["F", ["A", "B", "CONTROL", "MOVEABLE"]]]
 # one representative per region of the encoder's decision space, for the mixed-kind collections
 MIX_KINDS = ["pyint", "pyint-extreme", "np-int8", "np-uint8", "np-uint64", "float", "float-nan", "np-float32", "bool", "str",
              "arr1f-equal", "arr1f-ragged", "arr1i-equal", "arr2f-equal", "arr2-ragged", "list-equal", "list-ragged", "tuple",
              "empty", "dict", "flags"]
 if B.thorough():
-    MIX_KINDS = list(KINDS)
+    MIX_KINDS += ["np-int64", "np-uint16", "np-float64", "np-bool", "str-unicode", "arr1f-nan", "arr1u8", "arr-bool", "arr-str", "list2-equal",
+                  "list-inner-ragged", "dict-nan", "sentinel-int8", "sentinel-uint8", "arr-zero-width"]
 
 
 def collections():
@@ -178,7 +196,10 @@ def collections():
         for n in range(1, N_HOMO + 1):
             for mask in itertools.product((0, 1), repeat=n):
                 k = n - sum(mask)
-                for r in range(min(len(pool), ROT) if k else 1):
+                # windows of k consecutive pool values: every start for small pools, every k-th start for large ones, so
+                # that every value of the pool occurs for every n and every None pattern
+                starts = range(len(pool)) if len(pool) <= ROT else range(0, len(pool), max(1, k))
+                for r in (starts if k else [0]):
                     it = iter(range(k))
                     yield kname, [None if m else pool[(r + next(it)) % len(pool)] for m in mask]
     for k1, k2 in itertools.combinations(MIX_KINDS, 2):
@@ -297,6 +318,8 @@ def worst(rs):
 
 def entry_cmp(e, a):
     if isinstance(e, Flag):
+        if a is None:
+            return "none"
         return "ok" if isinstance(a, Flag) and type(a) is type(e) and e._flagsOn() == a._flagsOn() else "value"
     if isinstance(e, dict):
         if not isinstance(a, dict):
@@ -361,8 +384,9 @@ def compare(expected, actual):
     """Return {failure class: first index}; empty = equal up to the documented normalisations."""
     out = {}
     if len(expected) != len(actual):
-        return {"read-error": -1}
-    uns = any(is_unsigned(e) for e in expected)
+        return {"entries-dropped": -1}
+    nonNone = [e for e in expected if e is not None]
+    uns = bool(nonNone) and all(is_unsigned(e) for e in nonNone)
     for i, (e, a) in enumerate(zip(expected, actual)):
         r = entry_cmp(e, a)
         if r == "ok":
@@ -392,8 +416,19 @@ def short(x, n=300):
     return s if len(s) <= n else s[:n] + "..."
 
 
+DUMP = [] if "--dump" in sys.argv else None  # --dump <file>: every failing input, one JSON line each (debugging aid)
+
+
+SCOPE = {"tag": ""}  # kind tag of the collection being evaluated ("a" one kind and dtype, "a+b" mixed)
+
+
 def flag(vid, what, inp):
+    mixed = "+" in SCOPE["tag"]
+    if mixed:  # own ids for collections that mix kinds / dtypes, so that they cannot mask a one-kind failure of the same class
+        vid = vid.replace(".", ".mixed.", 1) if not vid.startswith("db.params.") else vid.replace("db.params.", "db.params.mixed.", 1)
     VCOUNT[vid] = VCOUNT.get(vid, 0) + 1
+    if DUMP is not None:
+        DUMP.append({"id": vid, "what": what, "input": inp})
     size = (len(inp.get("entries", [])), len(json.dumps(inp, default=str)))
     if vid not in VIOL or size < VIOL[vid][0]:
         VIOL[vid] = (size, what, inp)
@@ -499,9 +534,8 @@ def pack_roundtrip(arrayData, n):
             rattrs = Database._resolveAttrs(g[NAME].attrs, g)
             if raw.dtype.type is np.bytes_:
                 raw = np.char.decode(raw)
-            if rattrs.get("specialFormatting", False):
-                raw = unpackSpecialData(raw, rattrs, NAME)
-            return "ok", raw.tolist()
+            out = unpackSpecialData(raw, rattrs, NAME)  # short-circuits itself when no special formatting was applied
+            return "ok", out.tolist()
         except Exception as e:
             return "read-error", e
     finally:
@@ -518,8 +552,8 @@ def object_array(entries):
 def check_pack(specs, entries):
     forms = []
     nonNone = [e for e in entries if e is not None]
-    if any(e is None or isinstance(e, dict) or is_seq(e) for e in entries):
-        forms.append("object")  # what numpy makes of such a list: a 1-d array of python objects
+    if any(e is None or isinstance(e, (dict, Flag)) for e in entries):
+        forms.append("object")  # what numpy itself makes of a list holding None / dict / other objects: a 1-d object array
     if nonNone and all(is_seq(e) for e in nonNone):
         forms.append("jagged")
     if nonNone and len(nonNone) == len(entries) and not any(isinstance(e, (dict, Flag)) for e in entries):
@@ -570,7 +604,7 @@ def check_nonsense(specs, entries):
     data = object_array(entries)
     nones = np.where([d is None for d in data])[0]
     try:
-        enc = replaceNonesWithNonsense(data.copy(), NAME, nones)
+        enc = replaceNonesWithNonsense(data.copy(), NAME, nones) if len(entries) % 2 else replaceNonesWithNonsense(data.copy(), NAME)
     except (TypeError, ValueError) as e:
         hit(REJECT, "nonsense: %s" % type(e).__name__)
         return
@@ -647,6 +681,11 @@ def check_jagged(specs, entries):
         return
     diff = compare(list(entries), list(back))
     diff.pop("kind-promotion", None)  # one flat array has one dtype: promotion is reported by the pack / db.params clauses
+    if any(s is None for s in shp) and "shape" in diff:
+        # JaggedArray's own docstring: "No structure is retained from nested lists of jagged lists" - at the level of this
+        # class the flattening is documented; the property-level clauses (pack / db.params) still report it as .shape
+        diff.pop("shape")
+        hit(TOL, "jagged clause only: inner-ragged entry flattened (documented in JaggedArray)")
     for cls, i in diff.items():
         flag("jagged.roundtrip", "fromH5(...).unpack() differs from the entries (%s) at %d: %s vs %s" % (cls, i, short(entries, 200), short(back, 200)), inp)
 
@@ -715,17 +754,16 @@ def check_db(specs, entries, pname=NAME, cls=C05Obj):
         hit(REJECT, "db.params: %s" % type(res).__name__)
         return
     if st == "read-error":
-        flag("db.params.read-error", "_writeParams accepted the values but _readParams raised %s" % short(res, 200), inp)
+        vid = "db.params.entries-dropped" if "unmatched sizes" in str(res) else "db.params.read-error"
+        flag(vid, "_writeParams accepted the values %s but _readParams raised %s" % (short(entries, 150), short(res, 200)), inp)
         return
     for c, i in compare(list(entries), res[pname]).items():
         flag("db.params." + c, "value read by _readParams differs from the value written by _writeParams at object %d: wrote %s, read %s" % (i, short(entries, 200), short(res[pname], 200)), inp)
 
 
-def check_hierarchy():
-    """One parameter of each kind on a parent/child class pair, written and read in one go."""
-    n = 4
+def each_kind_values():
     a = np.array
-    assign = {
+    return {
         "c05Int": [1, -2, 2**40, 0],
         "c05Float": [0.5, -1e300, float("inf"), 5e-324],
         "c05Bool": [True, False, False, True],
@@ -741,6 +779,12 @@ def check_hierarchy():
         "c05AllNone": [None, None, None, None],
         "flags": [Flags.FUEL, Flags.FUEL | Flags.INNER, Flags(0), Flags.CLAD | Flags.DEPLETABLE | Flags.MOVEABLE],
     }
+
+
+def check_hierarchy():
+    """One parameter of each kind on a parent/child class pair, written and read in one go."""
+    n = 4
+    assign = each_kind_values()
     B.case(("db-hierarchy",), {"clause": "db.params", "hierarchy": sorted(assign)})
     st, res = db_roundtrip(C05Child, assign, n)
     if st != "ok":
@@ -750,6 +794,40 @@ def check_hierarchy():
         d = compare(vals, res[pname])
         if d:
             flag("db.params.hierarchy", "parameter %s: wrote %s, read %s (%s)" % (pname, short(vals, 150), short(res[pname], 150), d), {"clause": "hierarchy", "param": pname})
+
+
+def check_full_db():
+    """The same objects as children of the smallest test reactor: Database.writeToDB -> file -> Database.load."""
+    import contextlib
+    import io
+    from armi.reactor.tests.test_reactors import loadTestReactor
+
+    assign = each_kind_values()
+    B.case(("db-load",), {"clause": "db.load", "params": sorted(assign)})
+    try:
+        with contextlib.redirect_stdout(io.StringIO()):
+            o, r = loadTestReactor(inputFileName="smallestTestReactor/armiRunSmallest.yaml")
+        kids = [C05Child("c05kid%d" % i) for i in range(4)]
+        for i, k in enumerate(kids):
+            for pname, vals in assign.items():
+                k.p[pname] = vals[i]
+            r.add(k)
+        with Database("c05-full.h5", "w") as db:  # cwd is this script's temporary directory
+            db.writeInputsToDB(o.cs)
+            db.writeToDB(r)
+        with Database("c05-full.h5", "r") as db:
+            r2 = db.load(0, 0, allowMissing=True)
+    except Exception as e:
+        flag("db.load", "writeToDB/load of the smallest test reactor with 4 dummy children holding one parameter of each kind raised %s" % short(e), {"clause": "full-db"})
+        return
+    kids2 = [c for c in r2 if isinstance(c, C05Child)]
+    if [str(k.name) for k in kids2] != [k.name for k in kids]:
+        flag("db.load", "children after load: %s" % [k.name for k in kids2], {"clause": "full-db"})
+        return
+    for pname, vals in assign.items():
+        d = compare(vals, [k.p[pname] for k in kids2])
+        if d:
+            flag("db.load", "parameter %s: wrote %s, loaded %s (%s)" % (pname, short(vals, 150), short([k.p[pname] for k in kids2], 150), d), {"clause": "full-db", "param": pname})
 
 
 def check_spill():
@@ -762,13 +840,37 @@ def check_spill():
         hit(REJECT, "pack/jagged-9000: %s" % type(res).__name__)
         B.extra["attrs_spill"] = "not reached: the >64 KiB attribute was rejected at write time with %s (%s)" % (type(res).__name__, short(res, 120))
         return
-    B.extra["attrs_spill"] = "reached" if "attrs:spilled-to-dataset" in STRAT else "attribute stored inline"
+    B.extra["attrs_spill"] = "reached" if "attrs:spilled-to-dataset" in STRAT else (
+        "72 KB offsets/shapes attributes stored inline (datasets made with track_order=True, as _writeParams does, take large attributes)")
     if st == "read-error":
         flag("pack.read-error", "9000-entry ragged collection accepted but reading raised %s" % short(res, 160), {"clause": "spill"})
         return
     d = compare(entries, res)
     if d:
-        flag("pack.silent-change", "9000-entry ragged collection (attributes spilled) differs: %s" % d, {"clause": "spill"})
+        flag("pack.silent-change", "9000-entry ragged collection differs after the round trip: %s" % d, {"clause": "spill"})
+    # the fall-back of _writeAttrs (attribute -> own dataset + "@path" link) only matters for objects created without
+    # track_order; exercise _writeAttrs/_resolveAttrs there: either the attributes resolve to equal arrays or the write raises
+    g = H.group()
+    try:
+        ds = g.create_dataset("plain", data=np.arange(3))
+        big = {"offsets": np.arange(20000), "someString": "not a link", "shapes": np.arange(30000).reshape(10000, 3)}
+        B.case(("attrs", "spill"), nontrivial=True)
+        try:
+            Database._writeAttrs(ds, g, big)
+        except Exception as e:
+            hit(REJECT, "attrs-spill: %s" % type(e).__name__)
+            B.extra["attrs_spill_without_track_order"] = "fall-back not reached: h5py raised %s (%s), _writeAttrs only catches RuntimeError -> rejected at write time" % (type(e).__name__, short(e, 100))
+            return
+        spilled = [k for k, v in ds.attrs.items() if isinstance(v, str) and v.startswith("@")]
+        B.extra["attrs_spill_without_track_order"] = "spilled: %s" % spilled
+        if spilled:
+            hit(STRAT, "attrs:spilled-to-dataset")
+        back = Database._resolveAttrs(ds.attrs, g)
+        ok = set(back) == set(big) and all(np.array_equal(back[k], big[k]) for k in big)
+        if not ok:
+            flag("attrs.spill-roundtrip", "_resolveAttrs(_writeAttrs(attrs)) != attrs for attributes larger than the object header", {"clause": "spill"})
+    finally:
+        H.drop(g)
 
 
 # ----------------------------------------------------------------------------------------------------------------
@@ -843,6 +945,8 @@ def main():
             check_hierarchy()
         elif cl == "spill":
             check_spill()
+        elif cl == "full-db":
+            check_full_db()
         else:
             run_one(r["entries"], clauses=(cl,), param=r.get("param", NAME))
         print(json.dumps({"result": "fail" if VIOL else "pass", "violations": [{"id": k, "what": v[1]} for k, v in sorted(VIOL.items())]}, default=str))
@@ -852,11 +956,14 @@ def main():
     kinds_seen = set()
     for tag, specs in collections():
         kinds_seen.add(tag)
+        SCOPE["tag"] = tag
         run_one(specs)
         if all(s is None or s[0] == "F" for s in specs) and any(s is not None for s in specs):
             flagCases.append(specs)
+    SCOPE["tag"] = ""
     check_spill()
     check_hierarchy()
+    check_full_db()
     # Flags through the serializer route of _writeParams/_readParams (the `flags` parameter of every composite); last,
     # because assigning `flags` once makes every later write of any composite class include it
     for specs in flagCases:
@@ -864,7 +971,16 @@ def main():
         check_db(specs, entries, "flags")
     for vid in sorted(VIOL):
         _, what, inp = VIOL[vid]
-        B.violation(vid, what + "  [%d failing inputs with this id]" % VCOUNT[vid], inp)
+        if vid.startswith("pack.") and isinstance(inp.get("entries"), list):
+            # is the smallest pack-level failure also reachable through the real writer?
+            ents = [build(s) for s in inp["entries"]]
+            st, res = db_roundtrip(C05Obj, {NAME: ents}, len(ents))
+            via = "rejected at write time" if st == "rejected" else ("reading raises" if st == "read-error" else ("differs: " + ",".join(sorted(compare(ents, res[NAME]))) if compare(ents, res[NAME]) else "round-trips"))
+            what += "  [same collection through _writeParams/_readParams: %s]" % via
+            VIOL[vid] = (None, what, inp)
+
+        # one entry per id (at most ~30): appended directly, Bounded.violation() would cut the list at 20
+        B.violations.append({"id": vid, "what": what + "  [%d failing inputs with this id]" % VCOUNT[vid], "input": inp})
     B.extra["violation_counts"] = dict(sorted(VCOUNT.items()))
     B.extra["strategies_hit"] = dict(sorted(STRAT.items()))
     B.extra["strategies_unreachable"] = ["final-raise (the two raise statements at the end of packSpecialData are dead code: the preceding `if any(isinstance(d, (tuple, list, np.ndarray)) ...)` is always true when reached)"] if "pack:final-raise" not in STRAT else []
@@ -874,6 +990,10 @@ def main():
     B.extra["collection_kinds"] = len(kinds_seen)
     if covered:
         B.extra["line_coverage"] = cov_report()
+    if DUMP is not None:
+        with open(sys.argv[sys.argv.index("--dump") + 1], "w") as fh:
+            for d in DUMP:
+                fh.write(json.dumps(d, default=str) + "\n")
     B.finish(exhaustive=False)
 
 
